@@ -2,9 +2,13 @@
 import common as C
 import oracles as O
 from props import _filter as FL
+import pluginstream as PS
+import pluginoracles as PO
 
 PID = 'C06'
 TRUSTED = ['Tier H model coq/Model/{Axis,Filter}.v tied to /repo by vm_compute correspondence on every run (harness/filterstream.py)',
+           'plugin layer (script settings split by Model/Lexer.v split_script, print start / end / other events, script hook): `plugin` vm_compute '
+           'correspondence against the real ExcludeRegionPlugin (harness/pluginstream.py)',
            'modelled, not verified: binary64 rounding (model is exact; numbers compared within 1e-9, decisions away from borders by >= 5e-4)',
            'declarative reading of exclude/first/last/merge in harness/oracles.py (deferred_spec)']
 ASSUMPTIONS = ['episodes end by a move out, a disable @-command, the script hook or a new print']
@@ -20,10 +24,30 @@ def _kw():
 def correspondence(ctx):
     kw, styles = _kw()
     acc = (lambda p: p['style'] in styles) if styles else None
-    return FL.correspondence(ctx, PID, kw, 60, 1500, accept=acc)
+    r = FL.correspondence(ctx, PID, kw, 60, 1500, accept=acc)
+    # the plugin layer: scripts come from the settings text, episodes also end with the print, pause / resume must not touch them
+    hs = [PS.gen_history(ctx.rng) for _ in range(ctx.n(30, 600))]
+    nev, dis, rows, shards = PS.run_histories(hs, PID.lower() + 'p')
+    for d in dis[:3]:
+        r['disagreements'].append(dict(kind=d['kind'], stream='plugin', case=PS.describe(d['hist'], d['rows'])) if d['kind'] == 'model!=impl' else d)
+    r['evaluations'] += len(hs)
+    r['shards'] += shards
+    r['plugin_stream'] = dict(histories=len(hs), events=nev)
+    r['rule'] += '; plus the `plugin` stream: histories of events (incl. pause / resume), settings updates with script texts (comments, blank lines, '\
+                 'non-G-code lines, CRLF), hooks and API requests against the real plugin object'
+    return r
 
 
 def oracle(ctx, budget=1, replay=None, hints=None):
     kw, styles = _kw()
     acc = (lambda p: p['style'] in styles) if styles else None
-    return FL.oracle(ctx, PID, [O.check_C06], kw, 150 * budget, accept=acc, replay=replay)
+    r = FL.oracle(ctx, PID, [O.check_C06], kw, 150 * budget, accept=acc, replay=replay)
+    n = 40 * budget
+    for _ in range(n):
+        h = PS.gen_history(ctx.rng)
+        f = PO.run_history(h, ('C06',))
+        if f and len(r['failures']) < 10:
+            r['failures'].append(f[0])
+    r['evaluations'] += n
+    r.setdefault('distribution', {})['plugin_histories'] = n
+    return r
